@@ -35,7 +35,7 @@ CROSS = {"C01-C": ["C08"], "C08-C": ["C02", "C06"], "C16-C": ["C04"], "C05-C": [
          # round 13 (Y, Z)
          "C08-Y": ["C19", "C15"], "C17-Y": ["C09"], "C17-Z": ["C07"], "C07-Z": ["C04"], "C19-Z": ["C05"], "C15-Z": ["C05"], "C03-Y": ["C04", "C10"],
          # round 14 (a, b; eight properties)
-         "C03-a": ["C12"], "C03-b": ["C20"], "C17-a": ["C04"], "C17-b": ["C04"], "C13-a": ["C13"]}
+         "C03-a": ["C12"], "C03-b": ["C20"], "C17-a": ["C04"], "C17-b": ["C04"], "C13-a": ["C04"]}
 THOROUGH_ONLY = {("C16-B", "C16"), ("C16-D", "C16"), ("C02-P", "C02")}   # C02-P: the NDEBUG build of the MPI leg
 # kept with meta.json "expected": "not detected" (BUILD_REPORT.md, rounds 7, 8, 10, 11, 12; C06-T, C06-U and C06-W repeat C06-N; C04-X = C16-W needs a grid whose
 # dimension differs from the integrand's, which the library's own assert rejects; C19-X only changes which rounding of 1/n the uniform default uses; C20-X leaves the
@@ -54,8 +54,7 @@ OWN_BY_OTHER = {"C19-E": "C08", "C19-F": "C07", "C02-H": "C14", "C19-N": "C08", 
                 "C01-X": "C04", "C08-X": "C05", "C11-X": "C14",
                 # round 13: C02-Y / C02-Z: NaN densities (C06's subject); C08-Y = C08-X; C07-Y: a non-finite value reaches the adjustment data (C06)
                 "C02-Y": "C06", "C02-Z": "C06", "C08-Y": "C05", "C07-Y": "C06",
-                # round 14: function-local statics shared by concurrent integrations - seen where integrations run concurrently: the ranks of the thread shim (C04)
-                "C13-a": "C04"}   # C02-H: a compensation slot shared with the integral (C14's subject)
+                }   # C02-H: a compensation slot shared with the integral (C14's subject)
 PREFIX = {"5240915": ["C15"], "ac56e79": ["C15"], "bb5946d": ["C12"], "08987f4": ["C09"], "47037e0": ["C07"], "dfee5c7": ["C08"],
           "84d9fba": ["C05", "C03"], "4d363c6": ["C18"], "d91dcdf": ["C11"], "1c25063": ["C07"], "7c3b427": ["C05", "C03"]}
 
